@@ -6,19 +6,19 @@ HERE = os.path.dirname(os.path.dirname(os.path.abspath(__file__)))
 
 CHECKS = {
  "C11": dict(
-    text="Decoder.tla states, as successor-set operators, the weakest behaviour set compatible with C11 (one action per public Decoder request). TLC checks the C11 sentences as invariants/action properties on every buffer <= 5 (8) bytes and every request sequence to depth 3 (4); every explored (state, request) edge is replayed on the real Decoder and the recorded behaviour - plus thousands of random histories on buffers up to 64 bytes with limits up to usize::MAX - is trace-validated against the specification (remaining limit inferred by TLC).",
+    text="Decoder.tla states, as successor-set operators, the weakest behaviour set compatible with C11 (one action per public Decoder request). TLC checks the C11 sentences as invariants/action properties on every buffer <= 5 (8) bytes and every request sequence to depth 3 (4); every explored (state, request) edge is replayed on the real Decoder and the recorded behaviour - plus thousands of random histories on buffers up to 64 bytes with limits up to usize::MAX - is trace-validated against the specification (remaining limit inferred by TLC). Every typed request is swept over every declared value and its neighbours. Thorough tier: Apalache additionally discharges an inductive invariant of the offset / limit arithmetic for unbounded buffers (spec/apalache/DecoderArith.tla; extra evidence, never the verdict).",
     note="Trusted: TLC, the pinned GrammarData.json for typed requests (Declared sets), the harness's logging of offset()/has_limit()/limit_reached() and of DecodeError's derived Debug text. The reported offset of a failed *string* request and the exact error kind at limit/end for typed requests are deliberately unconstrained (property silent).",
     technique="TLA+ model checking (TLC) of Decoder.tla + model-generated histories replayed on the real Decoder + TLC trace validation (DecoderTrace.tla)",
     design="5 C11"),
  "C02": dict(
-    text="Assembler.tla (EncodeOperand/EncodeInst: the encoding the SPIR-V specification prescribes) and Parser.tla (ParseInst: the operational grammar) are checked against the real code on conforming instructions generated from the pinned grammar: every one of the 787 opcodes, every enumerant of every enum-kinded operand with its parameters, every mask bit / none / all (pairs at thorough), optional and variadic counts 0..3, OpConstant/OpSpecConstant/OpSwitch under every supported width, OpSpecConstantOp embedding every embeddable opcode, strings of every length mod 4. TLC checks words = EncodeInst(i) AND parsed = i independently, so a compensating pair of bugs is still caught.",
+    text="Assembler.tla (EncodeOperand/EncodeInst: the encoding the SPIR-V specification prescribes) and Parser.tla (ParseInst: the operational grammar) are checked against the real code on conforming instructions generated from the pinned grammar: every one of the 787 opcodes, every enumerant of every enum-kinded operand with its parameters, every mask bit / none / all (pairs at thorough), optional and variadic counts 0..3, OpConstant/OpSpecConstant/OpSwitch under every supported width, OpSpecConstantOp embedding every embeddable opcode, strings of every length mod 4. TLC checks words = EncodeInst(i) AND parsed = i independently, so a compensating pair of bugs is still caught. MC_Parser additionally model-checks, on every word stream of <= 3 (4) words over 12 real first words x 8 operand words, that re-encoding what the operational grammar delivers parses back to the same instructions, and every such stream is parsed by the real parser and validated.",
     note="Literal values are sampled, not enumerated (they influence no branch except through enumerant tables, which are swept). Conformance of each generated instruction is itself decided by the specification (ParseInst(EncodeInst(i)) = i); a generator slip is a tool error.",
-    technique="TLC trace validation (ParserTrace.tla) of assemble/parse behaviours against Assembler.tla and Parser.tla over grammar-directed inputs",
+    technique="TLC model checking (MC_Parser: operational grammar vs declarative language, re-encoding) + TLC trace validation (ParserTrace.tla) of assemble/parse behaviours against Assembler.tla and Parser.tla over model-generated streams and grammar-directed inputs",
     design="5 C02"),
  "C03": dict(
-    text="Parser.tla is an operational TLA+ definition of the SPIR-V binary language (header, framing, quantifier loop, enumerant/mask parameters, context-dependent literals, OpSpecConstantOp) with fault classes and the set of error values C03 admits per class. Every real parse of thousands of well-formed random modules and of their single-fault mutants (truncation at any byte, word count, opcode, operand word substitution/insertion/deletion, header faults, extents past the end, trailing bytes, OpSpecConstantOp embedding every opcode number) is validated by TLC: accept/reject, delivered prefix, error class, instruction number and offset interval.",
+    text="Parser.tla is an operational TLA+ definition of the SPIR-V binary language (header, framing, quantifier loop, enumerant/mask parameters, context-dependent literals, OpSpecConstantOp) with fault classes and the set of error values C03 admits per class. Every real parse of thousands of well-formed random modules and of their single-fault mutants (truncation at any byte, word count, opcode, operand word substitution/insertion/deletion, header faults, extents past the end, trailing bytes, OpSpecConstantOp embedding every opcode number) is validated by TLC: accept/reject, delivered prefix, error class, instruction number and offset interval. MC_Parser model-checks the operational grammar against a DECLARATIVE definition of the language (set of encodings of conforming instructions) on every word stream of <= 3 (4) words over 12 real first words x 8 operand words: accepted iff in the language, delivered = the conforming prefix, fault at the first non-conforming instruction; every such stream is replayed on the real parser. The conforming sweep of C02 (must be accepted) and the tracker histories of C10 (literal widths under late / missing declarations) are validated too.",
     note="Readings of ambiguous sentences are fixed in DESIGN.md 4.6 (each the one that demands less of the code). Grammar facts come from the pinned GrammarData.json.",
-    technique="TLC trace validation (ParserTrace.tla) of real parses against the operational grammar Parser.tla",
+    technique="TLC model checking (MC_Parser: operational vs declarative grammar, bounded) + replay of every model stream on the real parser + TLC trace validation (ParserTrace.tla) of real parses against Parser.tla",
     design="5 C03"),
  "C04": dict(
     text="The Decoder and Parser specifications are total (TLC checks Decoder totality as an invariant over limits 0..3 and Huge); a panic is a result no specification action produces. Hostile inputs: >100k decoder requests with limits up to usize::MAX on buffers of every length mod 4, all C03 mutant classes, OpSpecConstantOp with every opcode, scripted consumers, and the load/assemble/disassemble pipeline on every module the loader accepts; every call runs under catch_unwind with overflow checks on.",
@@ -31,7 +31,7 @@ CHECKS = {
     technique="TLC model checking (MC_Tracker) + model-generated histories replayed through the real parser + TLC trace validation (ParserTrace.tla)",
     design="5 C10"),
  "C14": dict(
-    text="MC_Protocol models Parser::parse as a state machine (initialize, parse header, consume header, per-instruction parse/consume, finalize) with nondeterministic consumer answers and binary faults; TLC checks the C14 sentences as invariants and emits every complete behaviour; each is concretised (several binaries per behaviour) with a scripted logging consumer and the real callback log and result are validated by ParserTrace (protocol shape checked independently of the grammar). Plus every callback position x {stop, error} on random small modules and mutants.",
+    text="MC_Protocol models Parser::parse as a state machine (initialize, parse header, consume header, per-instruction parse/consume, finalize) with nondeterministic consumer answers and binary faults; TLC checks the C14 sentences as invariants and emits every complete behaviour; each is concretised (several binaries per behaviour) with a scripted logging consumer and the real callback log and result are validated by ParserTrace (protocol shape checked independently of the grammar: order, at-most-once, obedience to the answers, and - by framing on word counts alone - the k-th instruction callback is for the k-th frame and a parse that ends in finalize called back for every frame). Plus every callback position x {stop, error of four payload types, ParseState values included} on random small modules and mutants; OpSpecConstantOp occurs often inside the streams.",
     note="The consumer's own error value is a unique token per callback position recovered through Display.",
     technique="TLC model checking (MC_Protocol) + model-generated behaviours replayed on the real parser + TLC trace validation (ParserTrace.tla ShapeOK)",
     design="5 C14"),
@@ -51,7 +51,7 @@ CHECKS = {
     technique="TLC trace validation (ModuleTrace.tla) over an exhaustive small-scope enumeration of module values",
     design="5 C15"),
  "C12": dict(
-    text="Builder.tla states when each kind of call must fail, where it files its instruction and what the selection is afterwards; MC_Builder checks SelectionValid, ErrLeavesModule, id monotonicity on all call sequences within 2 functions x 1-2 blocks x 1-2 instructions, and emits a shortest history per abstract situation x call. Sampled (quick) / all (thorough) histories are mapped to concrete methods (every terminator, a dozen block instructions, all module-level methods, selections with in- and out-of-range indices, all four insert points) and replayed; random histories over ALL ~1150 callable methods are added. BuilderTrace validates result, selection and the whole module after every call; panics are data.",
+    text="Builder.tla states when each kind of call must fail, where it files its instruction and what the selection is afterwards; MC_Builder checks SelectionValid, ErrLeavesModule, id monotonicity on all call sequences within 2 functions x 1-2 blocks x 1-2 instructions, and emits a shortest history per abstract situation x call. Sampled (quick) / all (thorough) histories are mapped to concrete methods (every terminator, a dozen block instructions, all module-level methods, selections with in- and out-of-range indices, all four insert points) and replayed; every public method is called once in a legal and once in an illegal situation; random histories over ALL ~1150 callable methods are added. BuilderTrace validates result, selection and the whole module after every call (a failing call must leave instructions AND selection as they were, as MC_Builder!Fail states); panics are data. BuilderExtraTrace (select_function_by_name, find_return_block_indices, insert_types_global_values, dedup_insert_type, version) is specification growth beyond the property: reported in the evidence, never a verdict.",
     note="Which error variant a failing call returns is unconstrained. Insertion offsets stay within the selected block, as the property says.",
     technique="TLC model checking (MC_Builder) + model-generated histories replayed on the real Builder + TLC trace validation (BuilderTrace.tla)",
     design="5 C12"),
@@ -86,8 +86,8 @@ CHECKS = {
     technique="TLC trace validation (TablesTrace.tla ReflectOK/OperandOK + ParserTrace.tla) over all enumerants, bits, bit pairs and operand variants",
     design="5 C17"),
  "C19": dict(
-    text="Storage.tla (append / fetch_or_append with a possibly non-reflexive equality); MC_Storage checks the C19 sentences on every operation sequence up to 5 (7) over {a, b, nan}; every sequence is replayed on Storage<f64> and on a String-like element type whose 'nan' is unequal to itself, with lookups through ALL tokens handed out so far after every step; random sequences up to 150 operations are added; StorageTrace validates tokens and lookups.",
-    note="Values are compared by label.",
+    text="Storage.tla (append / fetch_or_append with a possibly non-reflexive equality); MC_Storage checks the C19 sentences on every operation sequence up to 5 (6) for three element types: f64 with +0.0 / -0.0 (equal but distinguishable) and NaN (unequal to itself); a key/tag type equal iff same key and different tag (non-reflexive); numbers equal iff at distance <= 1 (reflexive, symmetric, NOT transitive). Every sequence is replayed on the corresponding real Storage<T>, with lookups through ALL tokens handed out so far after every step; random sequences up to 150 operations are added; StorageTrace validates tokens and lookups.",
+    note="Values are compared by label (class, tag, equality mode); a lookup must yield the STORED value, not merely an equal one.",
     technique="TLC model checking (MC_Storage) + replay of all model sequences on the real Storage + TLC trace validation (StorageTrace.tla)",
     design="5 C19"),
  "C07": dict(
@@ -96,12 +96,12 @@ CHECKS = {
     technique="TLC trace validation (DisasmTrace.tla: token structure per Disasm.tla + read-back equality) of real disassemblies",
     design="5 C07"),
  "C20": dict(
-    text="DisCli.tla models the tool as read -> load -> print with exit 0 as the only terminal state (TLC checks it); rspirv-dis is built from the current tree and run on a corpus (empty file, every prefix of a valid module, OpConstant of undeclared / bool type, loadable random modules, single-fault mutants, random bytes); DisCliTrace checks exit status 0, no signal, no panic message, stdout = the library's own result on the same bytes + newline, error messages are one line.",
+    text="DisCli.tla models the tool as read -> load -> print with exit 0 as the only terminal state (TLC checks it); rspirv-dis is built from the current tree and run on a corpus (empty file, every byte prefix of a valid module and of a module with 64-bit constants and a 64-bit OpSwitch, OpConstant of undeclared / bool type, OpSpecConstantOp embedding sampled opcode numbers, every sequence of <= 4 structural instructions, OpExtInst with boundary numbers of known and unknown sets, loadable random modules, single-fault mutants, random bytes); DisCliTrace checks exit status 0, no signal, no panic message, stdout = the library's own result on the same bytes + newline, error messages are one line.",
     note="The expected text is computed in-process by the harness built from the same tree, so this check is independent of C07.",
     technique="TLC model checking (DisCli.tla) + TLC trace validation (DisCliTrace.tla) of real process runs",
     design="5 C20"),
  "C18": dict(
-    text="Lift.tla states what the structured module must contain for a data-representation module of the supported subset: version word, capabilities in order, memory model; one type / constant entry per declaration in order with operands carried over positionally (type and constant ids replaced by the token of the referenced entry); one operation per result-producing non-phi block instruction; per function its control mask, result type token, block count, each block's terminator, and each phi's result type among the block arguments. LiftTrace validates random subset modules and, for each of the 507 result-producing opcodes the pinned tree lifts, one module carrying that opcode with positionally distinct operands.",
+    text="Lift.tla states what the structured module must contain for a data-representation module of the supported subset: version word, capabilities in order, memory model; one type / constant entry per declaration in order with operands carried over positionally (type and constant ids replaced by the token of the referenced entry); one operation per result-producing non-phi block instruction; per function its control mask, result type token, block count, each block's terminator, and each phi's result type among the block arguments. LiftTrace validates random subset modules (repeated capabilities, constants that lift to equal values, phis of scalar, pointer, struct, vector and array type, every non-switch terminator) and, for each of the 592 result-producing opcodes the pinned tree lifts (enum / mask operands included), one module carrying that opcode with positionally distinct operands.",
     note="Only the subset the lifter handles today, as the property says; the set of liftable opcodes is pinned (spec/LiftSupported.json) so that breaking one opcode cannot hide as 'unsupported'. Float constants are not compared numerically.",
     technique="TLC trace validation (LiftTrace.tla against Lift.tla) of real LiftContext::convert results, with a per-opcode probing sweep",
     design="5 C18"),
